@@ -3,6 +3,7 @@ package tpl
 import (
 	"bytes"
 	"context"
+	"errors"
 	"net/http"
 	"strings"
 	"sync"
@@ -119,6 +120,9 @@ func (h *htmlRender) GetTemplate(ctx context.Context, tplName string) (types.Tem
 	}
 	if err != nil {
 		return nil, err
+	}
+	if m == nil { // NewHTMLRender 时首次构建失败 且之后没有成功 Reload 过
+		return nil, errors.New("tpl: no template set has been built successfully")
 	}
 	return m.GetTemplate(tplName)
 }
